@@ -3,7 +3,7 @@ import itertools
 
 from hypothesis import strategies as st
 
-from lib import cli
+from lib import cli, oracle
 from lib.core import Sub, Violation
 
 ID = "C18"
@@ -121,6 +121,7 @@ def expected_single(part, levels, glob, name, auto_name):
     }
     if cls in ("FrontAdapter", "BackAdapter", "RightmostFrontAdapter"):
         exp["force_anywhere"] = bool(p.get("anywhere") or f.get("anywhere"))
+    exp["_absolute_errors"] = e if e >= 1 else None
     if name is not False:
         exp["name"] = name if name is not None else auto_name
     return exp
@@ -149,11 +150,41 @@ def close(a, b):
     return a == b
 
 
-def compare(obs, exp, what):
-    bad = {k: (obs.get(k), v) for k, v in exp.items() if not close(obs.get(k), v)}
+def compare(obs, exp, what, adapter=None):
+    bad = {k: (obs.get(k), v) for k, v in exp.items() if not k.startswith("_") and not close(obs.get(k), v)}
     if bad:
         raise Violation(f"{what}: built adapter differs from the documented meaning (observed, expected): {bad}",
                         observed=obs, expected=exp)
+    if adapter is not None and exp.get("_absolute_errors"):
+        probe_absolute_errors(adapter, exp["_absolute_errors"], what)
+
+
+def probe_absolute_errors(a, e, what):
+    """'If E is an integer >= 1, then E errors in a full-length adapter match are allowed': the adapter with E
+    substitutions, evenly spread, as the whole read, must be found."""
+    seq = a.sequence
+    k = int(e)
+    plain = [i for i, c in enumerate(seq) if c in "ACGT"]
+    if k < 1 or len(plain) <= k or (not a.adapter_wildcards and not set(seq) <= set("ACGT")):
+        return
+    # completeness of the search itself is C02's subject and is claimed there for searches without indels and for
+    # adapter types that cannot skip the adapter start; the probe stays inside that domain
+    start_skipping = type(a).__name__ in ("FrontAdapter", "NonInternalFrontAdapter", "AnywhereAdapter") or \
+        getattr(a, "_force_anywhere", False)
+    if a.indels and start_skipping:
+        return
+    read = [c if c in "ACGT" else sorted(oracle.IUPAC[c])[0] for c in seq]
+    for j in range(k):
+        i = plain[(2 * j + 1) * len(plain) // (2 * k)]
+        read[i] = "ACGT"[("ACGT".index(seq[i]) + 1) % 4]
+    read = "".join(read)
+    if sum(1 for x, y in zip(read, seq) if y in "ACGT" and x != y) != k:
+        return  # positions collided for a very short adapter
+    if a.match_to(read) is None:
+        raise Violation(f"{what}: an error value of {e} allows {k} error(s) in a full-length match, but the adapter "
+                        f"{seq!r} (length {len(seq)}, max_error_rate {a.max_error_rate!r}) is not found in its own copy "
+                        f"with {k} substitution(s): {read!r}", observed=None, expected=f"match with <= {k} errors",
+                        tag="absolute-errors")
 
 
 # ----------------------------------------------------------------------------- generators
@@ -163,7 +194,7 @@ SEQ_ALPHA = ["ACGT", "ACGT", "ACGTN", "ACGTRYKMSW", "acgt", "ACGU", "ACGI", "AAA
 @st.composite
 def seq_strategy(draw):
     alpha = draw(st.sampled_from(SEQ_ALPHA))
-    n = draw(st.integers(2, 12))
+    n = draw(st.integers(2, 12)) if draw(st.integers(0, 7)) else draw(st.integers(30, 110))  # real adapters: 30-70 nt
     s = draw(st.text(alphabet=alpha, min_size=n, max_size=n))
     if draw(st.integers(0, 3)) == 0:
         k = draw(st.integers(0, len(s)))
@@ -183,6 +214,8 @@ def params_strategy(draw, seq, allow_o=True, allow_anywhere=False, allow_rightmo
         vals = [0, 0.05, 0.2, 0.25, 0.5]
         if non_n >= 3:
             vals += [1, 2] if non_n > 2 else [1]
+        if non_n >= 12:
+            vals += [1, 2, 3, 4, 6, 7]
         ps.append(("e", draw(st.sampled_from(vals))))
     if allow_o and draw(st.integers(0, 2)) == 0:
         ps.append(("o", draw(st.sampled_from([1, 2, 4, 7, 30]))))
@@ -382,7 +415,7 @@ def verify_built(case, built, what, auto_name="1"):
         if len(built) != 1:
             raise Violation(f"{what}: {len(built)} adapters built", observed=len(built))
         p = case["parts"][0]
-        compare(observed_single(built[0]), expected_single(p, None, glob, case["name"], auto_name), what)
+        compare(observed_single(built[0]), expected_single(p, None, glob, case["name"], auto_name), what, built[0])
         keys = {k for k, _ in p["params"]}
         return bool(p["restriction"] and keys) or (("e" in keys and "e" in glob) or ("o" in keys and "O" in glob)
                                                    or ("indels" in keys and "indels" in glob))
@@ -417,7 +450,7 @@ def verify_built(case, built, what, auto_name="1"):
         p = dict(r["part"])
         if f["anchor"]:
             p["restriction"] = "anchored"
-        compare(observed_single(a), expected_single(p, fparams, glob, r["name"], None), what + f" [record {r['name']}]")
+        compare(observed_single(a), expected_single(p, fparams, glob, r["name"], None), what + f" [record {r['name']}]", a)
     return True
 
 
